@@ -1,2 +1,72 @@
-(** C02 - Match completeness.  Only statements, [exact], and Print Assumptions. *)
-From Sheens Require Import Spec.Embed.
+(** C02 - Match completeness: an instance embedded in a message is always
+    found.  Only statements, [exact], and Print Assumptions.
+
+    [embeds sg p f]: the assignment [sg] embeds pattern [p] in message [f],
+    each variable standing for the whole message part at its position
+    (Spec/Embed.v).  [c02_pre] spells the property's quantifier: supported
+    fragment, plain variables, arrays are sets, repeated variables scalar,
+    nothing planted begins with '?'.  This is the statement the repository's
+    own doc/patmatch.v leaves Admitted (submsg_patmatch), here for the model
+    of the real algorithm including arrays and property variables. *)
+From Sheens Require Import Spec.Embed Proofs.MatchComplete Proofs.MatchLinear Proofs.EmbedsExtra
+     Proofs.CplCheck.
+
+(** if some assignment embeds the pattern in the message, matching succeeds
+    (with any iteration order, for every sufficient fuel) and returns it *)
+Theorem C02_match_complete :
+  forall ord, perm_oracle ord -> forall p f sg,
+  c02_pre p f sg = true -> embeds sg p f = true ->
+  exists n0, forall fuel, n0 <= fuel ->
+    exists bss, match_ ord fuel p f [] = Ok bss /\ In sg bss.
+Proof. exact match_complete. Qed.
+Print Assumptions C02_match_complete.
+
+(** "exactly the embeddings", other half: for a linear plain pattern every
+    returned set is an embedding whose domain is the pattern's variables *)
+Theorem C02_linear_results_are_embeddings :
+  forall ord, perm_oracle ord -> forall fuel p f bss bs',
+  supported p = true -> all_plain p = true -> linear p = true ->
+  wf_json p = true -> wf_json f = true -> var_free f = true ->
+  arrays_are_sets p = true -> arrays_are_sets f = true ->
+  match_ ord fuel p f [] = Ok bss -> In bs' bss ->
+  c02_result_is_embedding p f bs' = true.
+Proof. exact match_linear_results_embed. Qed.
+Print Assumptions C02_linear_results_are_embeddings.
+
+(** the supported plain fragment never reports an error *)
+Theorem C02_supported_no_error :
+  forall ord, perm_oracle ord -> forall fuel p f,
+  supported p = true -> all_plain p = true -> var_free f = true ->
+  match_ ord fuel p f [] <> Err.
+Proof. exact match_supported_no_err. Qed.
+Print Assumptions C02_supported_no_error.
+
+(** keys and array elements the pattern does not mention never prevent a
+    match: adding them (at the skeleton positions of the pattern, at any
+    depth) keeps the embedding, hence by completeness the match *)
+Theorem C02_extra_key_harmless :
+  forall sg kvs fkvs k x, assoc k fkvs = None ->
+  embeds sg (JObj kvs) (JObj fkvs) = true ->
+  embeds sg (JObj kvs) (JObj (fkvs ++ [(k, x)])) = true.
+Proof. exact embeds_extra_key. Qed.
+Print Assumptions C02_extra_key_harmless.
+
+Theorem C02_extra_element_harmless :
+  forall sg xs fa x,
+  embeds sg (JArr xs) (JArr fa) = true -> embeds sg (JArr xs) (JArr (fa ++ [x])) = true.
+Proof. exact embeds_extra_elem. Qed.
+Print Assumptions C02_extra_element_harmless.
+
+Theorem C02_extras_harmless_any_depth :
+  forall sg p f f',
+  wf_json f = true -> embeds sg p f = true -> adds_extras p f f' -> embeds sg p f' = true.
+Proof. exact embeds_adds_extras. Qed.
+Print Assumptions C02_extras_harmless_any_depth.
+
+(** non-vacuity: a concrete pattern with a repeated variable, an array
+    variable, a property variable and an anonymous variable meets the side
+    conditions, and the model returns the planted assignment *)
+Example C02_nonvacuous :
+  c02_pre ex_p ex_f ex_sg = true /\ embeds ex_sg ex_p ex_f = true /\
+  match Match ex_p ex_f [] with Ok r => c02_found ex_sg r | _ => false end = true.
+Proof. split; [exact ex_pre | split; [exact ex_embeds | exact ex_found]]. Qed.
